@@ -36,6 +36,12 @@ name over {p, q, x}: both `get_source` and `load` (ChoiceLoader and
 PrefixLoader override both) must resolve to the first loader that has the name
 and raise TemplateNotFound exactly when none has it; PrefixLoader splits on
 the first delimiter.
+
+Part 3 (histories on one composition object).  For every shape x leaf
+contents x kind vector: resolve every name that resolves before or after,
+apply one change to one leaf (add an absent name / remove a present one),
+resolve again with the SAME loader objects: the answer is the first loader
+that has the name now, for get_source and for load.
 """
 from __future__ import annotations
 
@@ -546,6 +552,111 @@ def compose_shard(arg):
     return p
 
 
+def mutations(nleaves, leafnames):
+    """one change of one leaf's contents: (leaf, name) is added when absent, removed when present"""
+    return [(i, n) for i in range(nleaves) for n in leafnames]
+
+
+def history_shard(arg):
+    """Part 3: two-step histories on ONE composition object.  Resolve every interesting name, change one leaf's
+    mapping (an earlier loader gains the name / the serving loader loses it), resolve again: the answer must be the
+    first loader that has the name NOW (ChoiceLoader: 'If a template could not be found by one loader the next one is
+    tried' - nothing in the documentation lets an earlier answer influence a later one)."""
+    si, leafnames, assignments = arg
+    core.import_all_jinja()
+    import jinja2
+
+    p = core.Part()
+    tree = SHAPES[si]
+    kind = tree_kind(tree)
+    qs = queries(leafnames)
+    nleaves = leaf_count(tree)
+
+    def resolve(what, loader, env, name):
+        try:
+            if what == "get_source":
+                return loader.get_source(env, name)[0], None
+            return env.get_template(name).render(), None
+        except jinja2.TemplateNotFound:
+            return None, None
+        except Exception as e:  # noqa: BLE001
+            return None, type(e).__name__
+
+    def judge(got, exc, ref):
+        if exc is not None:
+            return "raises-" + exc
+        if got == ref:
+            return None
+        if got is None:
+            return "notfound-instead-of-found"
+        if ref is None:
+            return "found-instead-of-notfound"
+        return "wrong-loader"
+
+    for asg in assignments:
+        for (mi, mn) in mutations(nleaves, leafnames):
+            before = [{n: "D%d has %s" % (i, n) for n in names} for i, names in enumerate(asg)]
+            after = [dict(d) for d in before]
+            if mn in after[mi]:
+                del after[mi][mn]
+                change = "remove"
+            else:
+                after[mi][mn] = "D%d has %s" % (mi, mn)
+                change = "add"
+            names = [q for q in qs if ref_compose(tree, q, before) is not None or ref_compose(tree, q, after) is not None]
+            if not names:
+                continue
+            for kinds in KIND_VECTORS:
+                kinds = kinds[:nleaves]
+                for what in ("get_source", "load"):
+                    leaves = [dict(d) for d in before]
+                    loader = build_loader(tree, leaves, kinds)
+                    env = jinja2.Environment(loader=loader, cache_size=0)
+                    p.count("histories", 1)
+                    for phase, state in (("before", before), ("after", after)):
+                        if phase == "after":
+                            if change == "remove":
+                                del leaves[mi][mn]
+                            else:
+                                leaves[mi][mn] = after[mi][mn]
+                        for name in names:
+                            p.evals += 1
+                            ref = ref_compose(tree, name, state)
+                            got, exc = resolve(what, loader, env, name)
+                            bad = judge(got, exc, ref)
+                            if bad:
+                                p.violation(f"C28/compose-history/{kind}/{phase}-change/{bad}/{what}", {
+                                    "msg": f"{tree_repr(tree)} leaf kinds={kinds} contents={before}: resolve {names}, then "
+                                           f"{change} {mn!r} in leaf {mi}, then {what}({name!r}) [{phase} the change]: got {got!r}, "
+                                           f"reference {ref!r}",
+                                    "script": _history_script(tree, before, kinds, names, (mi, mn, change), what)})
+                            if phase == "after" and ref != ref_compose(tree, name, before):
+                                p.sig(("history", si, change, name, (ref or "NF")[:2]))
+                    p.sample({"composition": tree_repr(tree), "leaf_kinds": list(kinds), "contents": before,
+                              "history": ["resolve %r via %s" % (names, what), "%s %r in leaf %d" % (change, mn, mi),
+                                          "resolve %r again" % (names,)]}, cap=1)
+    return p
+
+
+def _history_script(tree, before, kinds, names, mutation, what):
+    mi, mn, change = mutation
+    return (
+        "import jinja2\nfrom checks import c28\n"
+        f"tree, leaves, kinds, names, what = {tree!r}, {before!r}, {kinds!r}, {names!r}, {what!r}\n"
+        "print(c28.tree_repr(tree), 'contents', leaves, 'leaf kinds', kinds)\n"
+        "loader = c28.build_loader(tree, leaves, kinds); env = jinja2.Environment(loader=loader, cache_size=0)\n"
+        "def show():\n"
+        "    for name in names:\n"
+        "        try: got = loader.get_source(env, name)[0] if what == 'get_source' else env.get_template(name).render()\n"
+        "        except Exception as e: got = type(e).__name__\n"
+        "        print('  ', what, repr(name), '->', repr(got), '  reference:', repr(c28.ref_compose(tree, name, leaves)))\n"
+        "show()\n"
+        + (f"del leaves[{mi}][{mn!r}]; print('removed', {mn!r}, 'from leaf', {mi})\n" if change == "remove" else
+           f"leaves[{mi}][{mn!r}] = 'D{mi} has {mn}'; print('added', {mn!r}, 'to leaf', {mi})\n")
+        + "show()\n"
+    )
+
+
 def empty_variants(asg):
     """which (leaf, name) sources are the empty string: none, each single one, all of them"""
     pairs = [(i, n) for i, names in enumerate(asg) for n in names]
@@ -580,7 +691,8 @@ def run(ctx: core.Ctx):
     ctx.rule = ("every name of <= k alphabet segments x leading slash x every loader setup, plus explicit sentinel "
                 "spellings; non-trivial = the name resolves, or leaves the roots, or raises, or contains a special "
                 "fragment; distinct = (loader setup, reference class [file / leaves / absent], observed outcome); "
-                "compositions: distinct = (shape, query name, loader that serves it)")
+                "compositions: distinct = (shape, query name, loader that serves it); histories: distinct = (shape, "
+                "change kind, name, new answer) for names whose answer changes")
     ctx.assumptions += [
         "POSIX platform: '/' is the only separator, so backslash/drive fragments are ordinary file-name characters",
         "only open() events are observed (sys.addaudithook); os.stat probes are not reads",
@@ -602,6 +714,7 @@ def run(ctx: core.Ctx):
         asg = all_assignments(leaf_count(tree), leafnames)
         cshards += [(si, leafnames, c) for c in chunks(asg, 8 if ctx.quick else 32)]
     ctx.pmap(compose_shard, cshards)
+    ctx.pmap(history_shard, cshards)
     ctx.cov["bounds"] = {
         "max_segments": maxseg, "alphabet": [repr(s) for s in SEGS], "names_per_setup": 2 * sum(len(SEGS) ** k for k in range(1, maxseg + 1)),
         "extra_names_per_setup": len(extra_names(base)), "setups": [repr(s) for s in setups],
@@ -609,4 +722,5 @@ def run(ctx: core.Ctx):
         "leaf_loader_kinds": ["".join(k) for k in KIND_VECTORS] + ["D=DictLoader F=FunctionLoader->str T=FunctionLoader->triple"],
         "empty_sources": "none / each single (leaf, name) / all",
         "query_names": len(queries(leafnames)), "compositions": ctx.counters.get("compositions", 0),
+        "two_step_histories": ctx.counters.get("histories", 0),
     }
